@@ -23,6 +23,9 @@ ATOL = 1e-8
 
 BASES = [G("X"), G("Y"), G("Z"), G("H"), G("T"), G("S"), G("SX"), G("RX", 0.3), G("RZ", -1.1), G("PHASE", 2.5), G("U3", 0.3, -1.1, 2.5), G("GPi", 0.3), G("CNOT"), G("CZ"), G("SWAP"),
          G("ISWAP"), G("CPHASE", 0.3), G("XX", 0.3), G("custom1"), G("custom2p", 0.3, 0.7), G("custom3"), G("customsym1"), G("customsym2")]
+# exact symbolic parameter values: sympy evaluates exp(I*pi/3) to (-1)**(1/3) etc., so the imaginary unit is not syntactically visible in the matrix
+EXACT_BASES = [G("U3", 0.3, 0.3, "s:pi/3"), G("U3", "s:pi", "s:pi/3", 0.5), G("RZ", "s:pi/3"), G("PHASE", "s:2*pi/3"), G("CPHASE", "s:pi/5"), G("RX", "s:pi/7"), G("XY", "s:pi/3"),
+               G("MS", "s:pi/3", "s:pi/4"), G("GPi2", "s:pi/3"), G("customroot1"), G("custom2p", "s:pi/3", "s:pi/5")]
 ALG = [["dagger"], ["controlled", 1], ["controlled", 2], ["power", 2], ["power", 3], ["power", -1], ["power", 0]]
 TRANS = [["power", "1/2"], ["power", "1/3"], ["exp"]]
 NEWP = {1: (0.9,), 2: (0.9, -0.4), 3: (0.9, -0.4, 1.7)}
@@ -202,7 +205,7 @@ def cutoff_case(case):
     return {"ok": True, "nt": True, "ops": k, "out": "certified" if deg else "grid-only", "extra": {"certified": int(bool(deg)), "grid": len(pts)}}
 
 
-FUNCS = {"chains": chain_case, "termination": chain_case, "transcendental_pairs": chain_case, "cutoff": cutoff_case}
+FUNCS = {"exact_parameters": chain_case, "chains": chain_case, "termination": chain_case, "transcendental_pairs": chain_case, "cutoff": cutoff_case}
 
 
 def chains(depth, max_trans=1):
@@ -227,6 +230,9 @@ def run(run):
         tp = [{"base": G("ISWAP"), "chain": [["power", "1/3"], ["power", "1/2"]]}, {"base": G("X"), "chain": [["exp"], ["power", "1/2"]]}, {"base": G("X"), "chain": [["exp"], ["exp"]]},
               {"base": G("CNOT"), "chain": [["exp"], ["exp"]]}, {"base": G("SWAP"), "chain": [["exp"], ["power", "1/2"]]}, {"base": G("T"), "chain": [["exp"]]},
               {"base": G("Z"), "chain": [["power", "1/2"], ["power", "1/2"]]}, {"base": G("S"), "chain": [["power", "1/2"], ["exp"]]}]
+    # at most one power modifier per chain here: integer powers of powers of exact expressions only blow up sympy's inversion (U3(0.3,0.3,pi/3).power(3).power(-1) > 300 s)
+    ecases = [{"base": b, "chain": c, "maxq": 4} for b in EXACT_BASES for c in chains(2, max_trans=0) if sum(1 for m in c if m[0] == "power") <= 1]
+    secs.append(Section("exact_parameters", ecases, chain_case, horizon=300, chunk=8, desc="all algebraic modifier chains (at most one power) of depth <= 2 over %d bases with exact sympy parameters (pi/3, ...) / root-of-unity entries" % len(EXACT_BASES)))
     secs.append(Section("transcendental_pairs", tp, chain_case, horizon=300, chunk=1, desc="transcendental modifier applied on top of a transcendental one"))
     term = [{"base": G("T"), "chain": c, "maxq": 2} for c in ([["exp"]], [["dagger"], ["exp"]], [["power", 2], ["exp"]], [["power", "1/2"]], [["power", "1/3"]])] + \
            [{"base": G("S"), "chain": [["exp"]], "maxq": 2}, {"base": G("PHASE", 2.5), "chain": [["exp"]], "maxq": 2}]
